@@ -124,50 +124,81 @@ PROBES = ["MODE1", "MODE2", "PASS1", "PBAD", "TA", "TB", "ARCH", "FROM_FLAG", "I
 
 
 def end_to_end(d, case, modecat, stats):
-    """main.c tests every macro any configuration could define; m1.h (a mode's forced include) defines HDR_M1"""
+    """ALL commands of the history in one compilation database (one load_database call), each compiling its own
+    copy main<k>.c of a file that tests every macro any configuration could define; m1.h (a mode's forced
+    include) defines HDR_M1.  Command k alone forms platform p<k>."""
     from codebasin import config
-    h = case["hist"][0]
-    exp = case["expect"][0]
-    lines = []
-    want = {}
-    defined = set()
-    for c in exp["configs"]:
-        defs = list(c["defines"])
-        files = list(c["ifiles"])
-        for mn in c["modes"]:
-            defs += modecat[mn]["defines"]
-            files += modecat[mn]["ifiles"]
-        defined |= {x.split("=")[0] for x in defs}
-        if "m1.h" in files:
-            defined.add("HDR_M1")
-    for pr in PROBES:
-        lines.append(f"#ifdef {pr}")
-        lines.append(f"int probe_{pr};")
-        want[len(lines)] = pr in defined
-        lines.append("#endif")
-    with open(os.path.join(d, "main.c"), "w") as f:
-        f.write("\n".join(lines) + "\n")
     with open(os.path.join(d, "m1.h"), "w") as f:
         f.write("#define HDR_M1 1\n")
-    argv = []
-    for t in h["argv"]:
-        argv += tok_argv(t)
+    db = []
+    wants = []
+    lines = []
+    for k, (h, exp) in enumerate(zip(case["hist"], case["expect"])):
+        if exp["outcome"] not in ("ok", "unknown"):
+            wants.append(None)
+            continue
+        want = {}
+        cfgs = []                     # per pass: macro -> value
+        for c in exp["configs"]:
+            defs = list(c["defines"])
+            files = list(c["ifiles"])
+            for mn in c["modes"]:
+                defs += modecat[mn]["defines"]
+                files += modecat[mn]["ifiles"]
+            dd = {}
+            for x in defs:
+                nm, _, val = x.partition("=")
+                dd[nm] = val if "=" in x else "1"
+            if "m1.h" in files:
+                dd["HDR_M1"] = "1"
+            cfgs.append(dd)
+        lines = []
+        for pr in PROBES:
+            lines.append(f"#ifdef {pr}")
+            lines.append(f"int probe_{pr};")
+            want[len(lines)] = any(pr in dd for dd in cfgs)
+            lines.append("#endif")
+        # by value: a pass that was not selected must not contribute its definition of the same macro
+        for v in ("700", "750", "800"):
+            lines.append(f"#if defined(ARCH) && ARCH == {v}")
+            lines.append(f"int arch_{v};")
+            want[len(lines)] = any(dd.get("ARCH") == v for dd in cfgs)
+            lines.append("#endif")
+        with open(os.path.join(d, f"main{k}.c"), "w") as f:
+            f.write("\n".join(lines) + "\n")
+        argv = []
+        for t in h["argv"]:
+            argv += tok_argv(t)
+        name = h["name"] if k % 2 == 0 else "/opt/bin/" + h["name"]
+        db.append({"directory": d, "file": f"main{k}.c", "arguments": [name] + argv + ["-c", f"main{k}.c"]})
+        wants.append((want, name, argv, exp))
+    if not db:
+        return None
     with open(os.path.join(d, "cc.json"), "w") as f:
-        json.dump([{"directory": d, "file": "main.c", "arguments": [h["name"]] + argv + ["-c", "main.c"]}], f)
+        json.dump(db, f)
     stats["evals"] += 1
     try:
         ents = config.load_database(os.path.join(d, "cc.json"), d)
     except Exception as e:  # noqa
-        return (f"exception:{type(e).__name__}", f"load_database for {h['name']} {argv}: {e}")
-    st, cb, logs, err = cbi.run_find(d, {"p": ents})
+        return (f"exception:{type(e).__name__}", f"load_database for {[e_['arguments'] for e_ in db]}: {e}")
+    conf = {}
+    for e in ents:
+        k = int(re.search(r"main(\d+)\.c$", e["file"]).group(1))
+        conf.setdefault(f"p{k}", []).append(e)
+    st, cb, logs, err = cbi.run_find(d, conf)
     if err is not None:
-        return (f"exception:{err[0]}", f"finder.find for {h['name']} {argv}: {err[1]}")
-    la = cbi.line_attr(st, os.path.join(d, "main.c"))
-    for ln, w in want.items():
-        if (ln in la and "p" in la[ln]) != w:
-            return ("attribution-not-union-of-passes",
-                    f"{h['name']} {argv}: line `{lines[ln - 1]}` used={ln in la and 'p' in la[ln]} but the union of the expected "
-                    f"passes {[c['pass'] for c in exp['configs']]} says {w}")
+        return (f"exception:{err[0]}", f"finder.find for {[e_['arguments'] for e_ in db]}: {err[1]}")
+    for k, w in enumerate(wants):
+        if w is None:
+            continue
+        want, name, argv, exp = w
+        la = cbi.line_attr(st, os.path.join(d, f"main{k}.c")) or {}
+        for ln, wv in want.items():
+            used = ln in la and f"p{k}" in la[ln]
+            if used != wv:
+                return ("attribution-not-union-of-passes",
+                        f"command {k} of one database: {name} {argv}: line `{lines[ln - 1]}` used={used} but the union of the "
+                        f"expected passes {[c['pass'] for c in exp['configs']]} says {wv}")
     return None
 
 
@@ -248,7 +279,7 @@ def check_chunk(args):
                 if bad:
                     break
             # end to end: a line is attributed to the platform iff ANY pass of the command uses it
-            if not bad and case["expect"][0]["outcome"] in ("ok", "unknown"):
+            if not bad:
                 bad = end_to_end(d, case, modecat, stats)
             if bad:
                 fails.append(dict(layer="G", tags=sorted(tg), symptom=bad[0],
@@ -385,11 +416,14 @@ def run(ctx):
     ctx.add_tlc("GenCompilerCfg HistoryIndependent/AliasTotal (simulated configurations x histories)", r)
     if r.violation:
         ctx.model_violation("GenCompilerCfg", r)
+    hcases = runner.sharded_tlc(ctx, "GenCompilerCfg", CFG.format(profile="h", shard="@SHARD@", nshards="@NSHARDS@"), 8,
+                                "GenCompilerCfg_h", timeout=900)
     cases = runner.sharded_tlc(ctx, "GenCompilerCfg", CFG.format(profile="q" if q else "t", shard=0, nshards=1), 16,
                                "GenCompilerCfg", timeout=900, simulate=f"num={150 if q else 3000}", depth=20,
                                seed=ctx.seed + 61)
     seen, allc = set(), []
-    for c in cases:
+    ctx.cov["history_profile_cases"] = len(hcases)
+    for c in hcases + cases:
         k = json.dumps([c["table"], c["hist"]], sort_keys=True)
         if k not in seen:
             seen.add(k)
@@ -403,6 +437,9 @@ def run(ctx):
         "defines), one of 4 implicit-option lists, 2 modes and 7 passes (one naming an unknown mode); followed by a history "
         "of 2 commands of <= 2 options each addressed to any name (or an unknown one). The real ArgumentParser processes "
         "the history in one process with the generated .cbi/config; every result is compared with CompilerCfg.Parse. "
+        "Plus, exhaustively (profile h): 2 names (undefined / the full rule set / alias), every history of 2 commands of <= 1 "
+        "option drawn from the pass-selecting options, also as ONE compilation database through load_database + finder.find "
+        "with probes by macro value. "
         "non-trivial = more than one pass is expected")
     ctx.cov["configurations"] = len(allc)
     c0 = allc[len(allc) // 2]
